@@ -481,6 +481,13 @@ fn main() {
 					alpha.push(session(c, Api::Try, w, true, vec![], Exit::Panic));
 				}
 			}
+			// clear_poison while the (possibly Err) guard / closure is alive, then a normal or panicking end
+			for (c, pc) in [(0usize, 0usize), (1, 0), (4, 4)] {
+				for e in [Exit::Drop, Exit::Panic] {
+					alpha.push(session(c, Api::Lock, true, true, vec![Step::ClearPoison(pc), Step::IsPoisoned(pc)], e));
+				}
+				alpha.push(session(c, Api::Scoped, true, false, vec![Step::ClearPoison(pc)], Exit::Panic));
+			}
 			let probes = vec![Stmt::IsPoisoned(0), Stmt::ClearPoison(0), Stmt::IsPoisoned(4), Stmt::ClearPoison(4)];
 			let maxlen = if quick { 2 } else { 3 };
 			let mut seqs: Vec<Vec<usize>> = vec![vec![]];
